@@ -426,16 +426,49 @@ theorem getDag_loop_any_values (es : List Entry) (order values : List Int)
       rw [ih']
     · exact ih'
 
-/-- **getDag_exact**. `get_dag` (the model iterates over the distinct values of `order`) keeps exactly the stored
-edges that go from a node of non-negative order to a node of strictly higher order, as a list in storage
-order. `order` must cover every stored row and column index (the code raises `IndexError` otherwise; that
-branch is outside the model). -/
-theorem getDag_exact (es : List Entry) (order : List Int) (hrow : ∀ e ∈ es, e.row < order.length)
+/-- **getDag_exact**. `get_dag` (one mask over the stored entries) keeps exactly the stored edges that go from a
+node of non-negative order to a node of strictly higher order, as a list in storage order. `order` must cover every
+stored row and column index (the code raises `IndexError` otherwise; that branch is outside the model). -/
+theorem getDag_exact (es : List Entry) (order : List Int) (_hrow : ∀ e ∈ es, e.row < order.length)
     (_hcol : ∀ e ∈ es, e.col < order.length) :
     pairsOf (getDagEntries es order) =
       pairsOf (es.filter fun e => e.keep && decide (0 ≤ order.getD e.row 0) &&
-                                   decide (order.getD e.row 0 < order.getD e.col 0)) :=
-  getDag_loop_any_values es order (unique order) fun e he => mem_unique_row order e (hrow e he)
+                                   decide (order.getD e.row 0 < order.getD e.col 0)) := by
+  unfold getDagEntries pairsOf
+  induction es with
+  | nil => simp
+  | cons e es ih =>
+    have ih' := ih (fun x hx => _hrow x (by simp [hx])) (fun x hx => _hcol x (by simp [hx]))
+    have hcond : (maskE order e).keep =
+        (e.keep && decide (0 ≤ order.getD e.row 0) && decide (order.getD e.row 0 < order.getD e.col 0)) := by
+      unfold maskE
+      by_cases h1 : order.getD e.row 0 < 0
+      · have : ¬ (0 ≤ order.getD e.row 0) := by omega
+        simp [h1, this]
+      · by_cases h2 : order.getD e.col 0 ≤ order.getD e.row 0
+        · have : ¬ (order.getD e.row 0 < order.getD e.col 0) := by omega
+          simp [h1, h2, this]
+        · have h3 : 0 ≤ order.getD e.row 0 := by omega
+          have h4 : order.getD e.row 0 < order.getD e.col 0 := by omega
+          simp [h1, h2, h3, h4]
+    have hrc : (maskE order e).row = e.row ∧ (maskE order e).col = e.col := by
+      unfold maskE; split <;> simp
+    simp only [List.map_cons, List.filter_cons]
+    rw [hcond]
+    split
+    · simp only [List.map_cons, hrc.1, hrc.2]
+      rw [ih']
+    · exact ih'
+
+/-- **getDag_onepass_eq_loop**. The one-pass mask of the current `get_dag` keeps the same edges, in the same order,
+as the loop over `np.unique(order)` of the pinned version (a refinement between the two versions of the code: the
+rewrite of /repo 25e6718d changed the cost, not the result). -/
+theorem getDag_onepass_eq_loop (es : List Entry) (order : List Int) (hrow : ∀ e ∈ es, e.row < order.length)
+    (hcol : ∀ e ∈ es, e.col < order.length) :
+    pairsOf (getDagEntries es order) = pairsOf (getDagEntriesLoop es order) := by
+  rw [getDag_exact es order hrow hcol]
+  unfold getDagEntriesLoop
+  exact (getDag_loop_any_values es order (unique order) fun e he => mem_unique_row order e (hrow e he)).symm
 
 /-- **getDag_exact**, read edge by edge on an `n × n` graph: `(i,j)` is an edge of the result iff it is an
 edge of the graph with `0 ≤ order i < order j`. -/
